@@ -9,9 +9,11 @@ import (
 	"bufio"
 	"fmt"
 	"os"
+	"runtime"
 	"strconv"
 	"strings"
 	"sync"
+	"time"
 )
 
 // Rng is splitmix64; deterministic in the seed.
@@ -75,11 +77,34 @@ func OpenTranscript(name string) *Transcript {
 	if dir == "" {
 		dir = os.TempDir()
 	}
-	f, err := os.Create(dir + "/" + name)
+	// VERIF_APPEND=1: a run that continues after a frozen case appends to the transcript of the earlier part
+	flags := os.O_CREATE | os.O_WRONLY | os.O_TRUNC
+	if os.Getenv("VERIF_APPEND") == "1" {
+		flags = os.O_CREATE | os.O_WRONLY | os.O_APPEND
+	}
+	f, err := os.OpenFile(dir+"/"+name, flags, 0o644)
 	if err != nil {
 		panic(err)
 	}
 	return &Transcript{f: f, w: bufio.NewWriterSize(f, 1<<20)}
+}
+
+// Watchdog guards one case in real time: a synctest bubble whose virtual clock is frozen (a goroutine waiting on
+// a sync.Mutex is not durably blocked) never ends by itself. After d the stacks of all goroutines are written to
+// stderr behind a VERIF-FROZEN line and the process exits with status 3. Call it outside the bubble.
+func Watchdog(label string, d time.Duration) (stop func()) {
+	done := make(chan struct{})
+	go func() {
+		select {
+		case <-done:
+		case <-time.After(d):
+			buf := make([]byte, 16<<20)
+			n := runtime.Stack(buf, true)
+			fmt.Fprintf(os.Stderr, "VERIF-FROZEN %s\n%s\n", label, buf[:n])
+			os.Exit(3)
+		}
+	}()
+	return func() { close(done) }
 }
 func (t *Transcript) line(prefix string, format string, a ...any) {
 	t.mu.Lock()
